@@ -103,6 +103,38 @@ def raw_query(port, auth, sql="select 1"):
     return r.status, j.get("code"), j.get("success")
 
 
+def check_wire_tie(ck, report, struct_disagrees):
+    """Translator tie: the integer dataflow of arrow.timestamp_to_sf_struct / to_sf_col (TIME) and the token slice of server.py, re-read from
+    /repo on every run (harness/arrow_translate.py, fails closed), emitted over Wire.v's pyarrow combinators and proved equal to the model's
+    epoch / fraction / encode_time / extract by coqc (generated theorems arrow_matches_source, token_slice_matches_source)."""
+    import os
+    import shutil
+    import subprocess
+
+    import arrow_translate
+
+    try:
+        text = arrow_translate.coq(core.REPO)
+    except arrow_translate.Unsupported as e:
+        report(f"arrow.py / server.py are no longer of the translated form ({e}): the theorems arrow_matches_source / token_slice_matches_source cannot be generated",
+               {"theorem": "arrow_matches_source"}, no_input=True)
+        return
+    out = core.VERIF / "build" / f"c17tie-{os.getpid()}"
+    out.mkdir(parents=True, exist_ok=True)
+    try:
+        (out / "Tie.v").write_text(text)
+        r = subprocess.run(f"timeout 300 coqc -Q {core.COQ}/theories FS Tie.v", shell=True, cwd=out, capture_output=True, text=True)
+        ok = r.returncode == 0 and r.stdout.count("Closed under the global context") == 2
+        ck.cov["source_tie"] = {"theorems": ["arrow_matches_source", "token_slice_matches_source"], "generated_from": ["fakesnow/arrow.py", "fakesnow/server.py"], "accepted": ok,
+                                "definitions": [l for l in text.splitlines() if l.startswith("Definition src_")]}
+        if not ok:
+            report("the dataflow of arrow.timestamp_to_sf_struct / the TIME branch of to_sf_col / the token slice of server.py, as re-read from the source, is no longer "
+                   f"provably equal to the model's: coqc rejects the generated theorem ({(r.stdout + r.stderr)[-200:].strip()}); Props_C17.epoch_fraction_exact / token_extract are no longer about this code",
+                   {"theorem": "arrow_matches_source / token_slice_matches_source", "generated": text}, no_input=not struct_disagrees)
+    finally:
+        shutil.rmtree(out, ignore_errors=True)
+
+
 def main():
     logging.getLogger("snowflake").setLevel(logging.CRITICAL)
     logging.getLogger("uvicorn").setLevel(logging.CRITICAL)
@@ -144,6 +176,8 @@ def main():
             report(f"timestamp_to_sf_struct({ts_vals[i]} us): wire struct {impl[i][0]} decodes to {impl[i][1]}; model {ck.model_obs[i]}"
                    + ("" if bad_rt else "; Props_C17.wire_roundtrip_timestamp no longer tied to arrow.py"),
                    {"timestamp_us": ts_vals[i], "impl": impl[i], "model": ck.model_obs[i], "theorem": "Props_C17.epoch_fraction_exact"}, no_input=not bad_rt)
+        # 1b. the same arithmetic as the SOURCE writes it (translator tie)
+        check_wire_tie(ck, report, bool(dis))
         # 2. http vs in-process on the same statements
         fs, ic = fsutil.fresh("db1", "s1")
         hc = srv.connect(db_path=":isolated:")
